@@ -32,17 +32,15 @@ mod methods {
     }
 
     fn pow(n1: f64, n2: i64) -> f64 {
-        match i32::try_from(n2) {
-            Ok(e) => n1.powi(e),
-            Err(_) => n1.powf(n2 as f64),
-        }
+        // not powi: it multiplies repeatedly (the error grows with the exponent) and takes the
+        // reciprocal for a negative exponent, so pow(2.0, -1024) would underflow to 0
+        n1.powf(n2 as f64)
     }
 
     fn pow(n1: f64, n2: u64) -> f64 {
-        match i32::try_from(n2) {
-            Ok(e) => n1.powi(e),
-            Err(_) => n1.powf(n2 as f64),
-        }
+        // not powi: it multiplies repeatedly (the error grows with the exponent) and takes the
+        // reciprocal for a negative exponent, so pow(2.0, -1024) would underflow to 0
+        n1.powf(n2 as f64)
     }
 
     fn pow(n1: f64, n2: f64) -> f64 {
